@@ -23,7 +23,8 @@ def configs(tier):
         archs = [(1, 1, 1), (2, 1, 2), (2, 2, 1), (1, 2, 2)]
     else:
         archs = [(a, b, c) for a in (1, 2, 3) for b in (1, 2, 3) for c in (1, 2, 3)] + [(2, 4, 2), (2, 2, 4), (4, 1, 1), (1, 4, 4)]
-    return [{"nv": a, "nh": b, "na": c} for (a, b, c) in archs] + [{"generic": "every shape"}, {"lean": "size-generic lemmas"}, {"independence": "mixed"}]
+    hist = [{"nv": 2, "nh": 1, "na": 2, "via": "deepcopy"}, {"nv": 1, "nh": 1, "na": 1, "via": "pickle"}]
+    return [{"nv": a, "nh": b, "na": c} for (a, b, c) in archs] + hist + [{"generic": "every shape"}, {"lean": "size-generic lemmas"}, {"independence": "mixed"}]
 
 
 def canaries(tier):
@@ -58,6 +59,9 @@ def run_config(ctx, cfg):
     if cfg.get("generic"):
         from contracts import gsets
         return gsets.run(ctx, "C02")
+    from drivers import common as _DC
+    _DC.VIA[0] = cfg.get("via")        # the object under contract is reached as a copy of another one (drivers/common.copied)
+    _DC.SYM_ORIG[0] = True
     from drivers import common as DC
     nv, nh, na = cfg["nv"], cfg["nh"], cfg["na"]
     canary = getattr(ctx, "canary", None)
